@@ -35,7 +35,7 @@ package middlewares
 
 //@ assumed jwt.ParseWithClaims
 //@   modifies jwt.Token.*
-//@   ensures ret1 == nil ==> ret0 != nil && foreign(ret0) && typeof(ret0.Claims) == typeid("*security.CustomClaims") && cast(ret0.Claims, "*security.CustomClaims") != nil
+//@   ensures ret1 == nil ==> ret0 != nil && foreign(ret0) && ret0.Claims == claims
 //@ assumed (*jwt.RegisteredClaims).VerifyAudience
 //@   pure
 //@   ensures result == verAud(c, cmp)
@@ -56,6 +56,7 @@ package middlewares
 //@   ensures [accepted-token-has-accepted-audience] ret1 == nil ==> (exists i int :: 0 <= i && i < len(audG) && verAud(claimsG, audG[i]))
 //@   ensures [accepted-token-has-accepted-issuer] ret1 == nil ==> (exists i int :: 0 <= i && i < len(issG) && verIss(claimsG, issG[i]))
 //@   ensures [accepted-token-is-rs256] ret1 == nil ==> algOf(ret0.Method) == "RS256"
+//@   ensures [accepted-token-carries-the-claims-the-authorizer-reads] ret1 == nil ==> typeof(ret0.Claims) == typeid("*security.CustomClaims") && cast(ret0.Claims, "*security.CustomClaims") != nil
 //@   safe typeassert
 //@   at call append#1
 //@     ghost audG := audience
@@ -71,6 +72,40 @@ package middlewares
 //@     invariant -1 <= $i && $i < len(issuer)
 //@     invariant checkIss <==> (exists k int :: 0 <= k && k <= $i && verIss(claimsG, issuer[k]))
 
+// the key functions handed to the jwt library: a node token is verified against the node's own public key; an external token
+// against the key that the configured well-known key set holds under the token's own key id (jwk / x509 parsing is trusted)
+//@ unit (*JwtConfig).ValidateToken$1
+//@   prop C16
+//@   requires config != nil
+//@   ensures [C16:node-tokens-are-verified-against-the-nodes-public-key] ret1 == nil && typeof(ret0) == typeid("*rsa.PublicKey") && cast(ret0, "*rsa.PublicKey") == config.NodePublicKey
+//@   modifies none
+//@ assumed (*jwk.Cache).Get
+//@   pure
+//@ assumed (jwk.Set).LookupKeyID
+//@   pure
+//@ assumed (jwk.Key).X509CertChain
+//@   pure
+//@ assumed (*cert.Chain).Get
+//@   pure
+//@ assumed jwt.ParseRSAPublicKeyFromPEM
+//@   pure
+//@ assumed (jwk.Key).Raw
+//@   modifies Cell.*
+//@ unit (*JwtConfig).ValidateToken$2
+//@   prop C16
+//@   ghost setOkG bool = false
+//@   ghost foundG bool = false
+//@   requires config != nil && token != nil
+//@   ensures [C16:no-verification-key-unless-the-key-set-holds-one-under-the-tokens-key-id] ret1 == nil ==> setOkG && foundG
+//@   at call Get#1 before
+//@     assert [C16:external-tokens-are-verified-against-the-configured-well-known-key-set] $arg0 == config.Cache && $arg2 == config.Wellknown
+//@   at call Get#1
+//@     ghost setOkG := $result1 == nil
+//@   at call LookupKeyID#1 before
+//@     assert [C16:the-key-is-looked-up-under-the-tokens-own-key-id] setOkG && typeof(token.Header["kid"]) == typeid("string") && $arg1 == cast(token.Header["kid"], "string")
+//@   at call LookupKeyID#1
+//@     ghost foundG := $result1
+
 // ---------------------------------------------------------------------------
 // C16: the authorizer middleware passes a request on to the handler only after the external policy check or the ACL
 // decision (doAclCheck, above) granted it, and the ACL decision is taken for the request's own method and path
@@ -80,8 +115,73 @@ package middlewares
 //@   pure
 //@ assumed (echo.Context).Request
 //@   pure
-//@ assumed middlewares.doOpaCheck
+// the external policy check: the policy service is asked about the request's own method, path, token and scopes, and the
+// request is granted only if the decoded answer to that very question says allow (the HTTP exchange itself is trusted)
+// the exchange with the policy service: the question posted is the serialisation of the given question, to the given
+// address; the answer handed back is the body read from the response to that very request (HTTP client and json are trusted)
+//@ assumed httpclient.WithHTTPTimeout
 //@   pure
+//@ assumed httpclient.NewClient
+//@   pure
+//@ assumed bytes.NewReader
+//@   pure
+//@ assumed (*httpclient.Client).Do
+//@   pure
+//@ unit middlewares.opaQuery
+//@   prop C16
+//@   ghost askedG slice
+//@   ghost reqG *http.Request = nil
+//@   ghost respG *http.Response = nil
+//@   ghost bodyG slice
+//@   ensures [C16:the-answer-handed-back-is-the-body-of-the-response-to-the-question-posted] ret1 == nil ==> ret0 == bodyG
+//@   preserves jwt.Token.*, security.CustomClaims.*, jwt.RegisteredClaims.*, http.Request.*, url.URL.*
+//@   at call Marshal#1 before
+//@     assert [C16:the-question-posted-is-the-one-given] typeof(v) == typeid("*middlewares.opaRequest") && cast(v, "*middlewares.opaRequest").Input == request.Input
+//@   at call Marshal#1
+//@     ghost askedG := $result0
+//@   at call NewReader#1 before
+//@     assert [C16:the-request-body-is-the-serialised-question] $arg0 == askedG
+//@   at call NewRequest#1 before
+//@     assert [C16:the-question-is-posted-to-the-given-address] $arg0 == "POST" && $arg1 == url
+//@   at call NewRequest#1
+//@     ghost reqG := $result0
+//@   at call Do#1 before
+//@     assert [C16:the-request-sent-is-the-one-built-for-the-question] $arg1 == reqG
+//@   at call Do#1
+//@     ghost respG := $result0
+//@   at call ReadAll#1 before
+//@     assert [C16:the-body-read-is-the-one-of-the-response-to-that-request] respG != nil ==> $arg0 == respG.Body
+//@   at call ReadAll#1
+//@     ghost bodyG := $result0
+//@ assumed json.Unmarshal
+//@   modifies opaAnswer.*, opaDatasets.*, Cell.*, []string
+//@ assumed echo.NewHTTPError
+//@   pure
+//@   ensures result != nil
+//@ unit middlewares.pluckDatasets
+//@   prop C16
+//@   ensures [C16:the-dataset-list-handed-on-is-the-one-the-policy-service-returned] len(result) == len(resp.Result) && (forall i int :: 0 <= i && i < len(result) ==> result[i] == resp.Result[i])
+//@   modifies none
+//@ unit middlewares.doOpaCheck
+//@   prop C16
+//@   ghost allowBodyG slice
+//@   ghost decodedG bool = false
+//@   ghost allowedG bool = false
+//@   requires token != nil
+//@   preserves jwt.Token.*, security.CustomClaims.*, jwt.RegisteredClaims.*, http.Request.*, url.URL.*
+//@   ensures [C16:granted-only-if-the-policy-answered-allow-for-this-request] ret1 == nil ==> allowedG
+//@   ensures [C16:a-refused-request-gets-no-dataset-list] ret1 != nil ==> len(ret0) == 0
+//@   at call opaQuery#1 before
+//@     assert [C16:the-policy-is-asked-about-the-requests-own-method-path-token-and-scopes] cast(request.Input["method"], "string") == method && cast(request.Input["path"], "string") == path && cast(request.Input["token"], "string") == token.Raw && cast(request.Input["scopes"], "[]string") == scopes
+//@   at call opaQuery#1
+//@     ghost allowBodyG := $result0
+//@   at call Unmarshal#1 before
+//@     assert [C16:the-answer-is-decoded-from-the-policy-response-to-the-allow-question] $arg0 == allowBodyG
+//@   at call Unmarshal#1
+//@     ghost decodedG := $result == nil
+//@   at call opaQuery#2 before
+//@     assert [C16:the-dataset-list-is-asked-for-only-after-the-policy-allowed-the-request] decodedG && answer.Result
+//@     ghost allowedG := true
 //@ unit middlewares.Authorizer$1$1$1
 //@   prop C16
 //@   ghost grantedG bool = false
@@ -102,3 +202,53 @@ package middlewares
 //@     ghost grantedG := $result == nil
 //@   at call next#1 before
 //@     assert [C16:request-reaches-the-handler-only-after-the-policy-or-the-acl-granted-it] grantedG
+
+// ---------------------------------------------------------------------------
+// C16: the authentication middleware. A request reaches the handler without a token only on a route the skipper declares
+// open; any other request reaches it only after the bearer token of its own Authorization header was validated
+// (ValidateToken above), and the token the authorizer later reads under the context key "user" is that validated token.
+//@ unit middlewares.extractToken
+//@   prop C16
+//@   ghost hdrG string = ""
+//@   at call Get#1 before
+//@     assert [C16:the-token-is-taken-from-the-authorization-header] key == "Authorization"
+//@   at call Get#1
+//@     ghost hdrG := $result
+//@   ensures [C16:only-a-bearer-authorization-header-yields-a-token] ret1 == nil ==> len(hdrG) > 7 && hdrG[0:6] == "Bearer" && ret0 == hdrG[7:len(hdrG)]
+//@   ensures [C16:no-bearer-header-no-token] !(len(hdrG) > 7 && hdrG[0:6] == "Bearer") ==> ret1 != nil && ret0 == ""
+//@   modifies none
+//@   safe slice
+
+//@ unit middlewares.JWTHandler$1$1
+//@   prop C16
+//@   ghost skipG bool = false
+//@   ghost authG string = ""
+//@   ghost extractedG bool = false
+//@   ghost tokG *jwt.Token = nil
+//@   ghost acceptedG bool = false
+//@   ghost storedG bool = false
+//@   requires config != nil && ErrJWTInvalid != nil
+//@   dyncall next pure
+//@   dyncall Skipper pure
+//@   dyncall BeforeFunc pure
+//@   at call Skipper#1 before
+//@     assert [C16:the-skipper-decides-about-the-request-at-hand] $arg0 == c
+//@   at call Skipper#1
+//@     ghost skipG := $result
+//@   at call next#1 before
+//@     assert [C16:a-request-without-token-check-reaches-the-handler-only-on-a-route-the-skipper-declares-open] skipG && $arg0 == c
+//@   at call extractToken#1 before
+//@     assert [C16:the-token-is-extracted-from-the-request-at-hand] $arg0 == c
+//@   at call extractToken#1
+//@     ghost authG := $result0
+//@     ghost extractedG := $result1 == nil
+//@   at call ValidateToken#1 before
+//@     assert [C16:the-token-validated-is-the-one-the-request-carries] extractedG && $arg1 == authG && $arg0 == config
+//@   at call ValidateToken#1
+//@     ghost tokG := $result0
+//@     ghost acceptedG := $result1 == nil
+//@   at call Set#1 before
+//@     assert [C16:the-validated-token-is-what-the-authorizer-finds-as-the-user] acceptedG && key == "user" && typeof(val) == typeid("*jwt.Token") && cast(val, "*jwt.Token") == tokG
+//@     ghost storedG := true
+//@   at call next#2 before
+//@     assert [C16:request-reaches-the-handler-only-with-a-validated-token-stored-as-the-user] acceptedG && storedG && $arg0 == c
